@@ -91,9 +91,11 @@ ExactPermuteV(c, r) ==
 ExactV(e) ==
     LET c == e.cfg IN
     IF ~ValidExact(c) THEN "InDomain"
-    ELSE IF {<<e.cong[k].abs, e.cong[k].form, e.cong[k].swap>> : k \in DOMAIN e.cong} # CongForms(c) THEN "CongForms"
+    \* complex sets (patterns 8, 9): only correlation_index is obliged (and driven)
+    ELSE IF {<<e.cong[k].abs, e.cong[k].form, e.cong[k].swap>> : k \in DOMAIN e.cong}
+              # (IF Complex(c.s) THEN {} ELSE CongForms(c)) THEN "CongForms"
     ELSE IF {<<e.permute[k].form, e.permute[k].ref, e.permute[k].target>> : k \in DOMAIN e.permute}
-              # {<<"single", "A", "B">>, <<"list", "A", "B">>, <<"list", "A", "A">>, <<"single", "B", "A">>} THEN "PermuteForms"
+              # (IF Complex(c.s) THEN {} ELSE {<<"single", "A", "B">>, <<"list", "A", "B">>, <<"list", "A", "A">>, <<"single", "B", "A">>}) THEN "PermuteForms"
     ELSE With(FirstBad([k \in DOMAIN e.cong |-> ExactCongV(c, e.cong[k])]), LAMBDA v1 :
          IF v1 # "ok" THEN v1
          ELSE With(ExactCorrV(c, e.corr), LAMBDA v2 :
